@@ -61,6 +61,7 @@ pub fn run_history(c: &MultiCase) -> CaseResult {
         v.label_if(it.bottom_empty_frame_seen, "bottom_alignment_frame_emptied");
         v.label_if(!it.model.blocks.is_empty(), "static_block");
         v.label_if(matches!(op, MOp::MpPrintln(t) | MOp::BarPrintln(_, t) if t.len() > it.rows * it.cols) && max_alive >= 1, "printed_line_taller_than_the_terminal");
+        v.label_if(it.model.entries.iter().any(|e| e.drawn.as_ref().map_or(false, |d| d.len() >= 3 && d[1..d.len() - 1].iter().any(|l| l.is_empty()))), "bar_with_a_blank_row_inside");
     }
     it.teardown()?;
     v.nontrivial = max_alive >= 2 && structural;
@@ -135,9 +136,20 @@ pub fn history_strategy(tier: Tier) -> BoxedStrategy<MultiCase> {
     let n = tier.pick(30, 50);
     (16u8..=40)
         .prop_flat_map(move |cols| {
-            (Just(cols), proptest::collection::vec(mop_strategy(cols as usize, false), 0..n), proptest::collection::vec((any::<u16>(), any::<u16>()), 0..2), proptest::option::weighted(0.12, (any::<u16>(), any::<bool>(), 1usize..3 * cols as usize)))
+            (Just(cols), proptest::collection::vec(mop_strategy(cols as usize, false), 0..n), proptest::collection::vec((any::<u16>(), any::<u16>()), 0..2), proptest::option::weighted(0.12, (any::<u16>(), any::<bool>(), 1usize..3 * cols as usize)), proptest::option::weighted(0.25, any::<u32>()))
         })
-        .prop_map(|(cols, mut ops, detaches, giant)| {
+        .prop_map(|(cols, mut ops, detaches, giant, key_nl)| {
+            // in a quarter of the histories some bars have a custom key that writes a line break (every third
+            // of them two: a blank row inside the bar's rendering)
+            if let Some(mask) = key_nl {
+                let mut k = 0;
+                for op in ops.iter_mut() {
+                    if let MOp::Add(spec) | MOp::Insert(_, spec) | MOp::InsertFromBack(_, spec) | MOp::InsertBefore(_, spec) | MOp::InsertAfter(_, spec) = op {
+                        spec.key_nl = mask >> (k % 32) & 1 == 1;
+                        k += 1;
+                    }
+                }
+            }
             // one printed line that alone wraps into more rows than the terminal has (80)
             if let Some((pos, through_bar, extra)) = giant {
                 let at = crate::hist::pick(pos, ops.len() + 1);
@@ -473,7 +485,7 @@ pub fn property() -> Property {
                 cases: |t| t.pick(3_000, 480_000),
                 run: run_history,
                 signature,
-                essential: &["two_bars_alive", "insert", "insert_from_back", "insert_before", "insert_after", "slot_reuse_after_removal", "head_zombie_reaped", "non_head_zombie", "bar_println", "static_block", "bottom_alignment_shrink", "bottom_alignment_frame_emptied", "printed_line_taller_than_the_terminal"],
+                essential: &["two_bars_alive", "insert", "insert_from_back", "insert_before", "insert_after", "slot_reuse_after_removal", "head_zombie_reaped", "non_head_zombie", "bar_println", "static_block", "bottom_alignment_shrink", "bottom_alignment_frame_emptied", "printed_line_taller_than_the_terminal", "bar_with_a_blank_row_inside"],
                 workers: w,
                 decode: Some(|u| decode_multi(u, 0)),
             }),
